@@ -104,15 +104,22 @@ class Interp:
         self.advance = self._find_advance()
         self.locate = self._find_locate()
         self.imprecise = set()
+        if self.roles_gap:
+            self.imprecise.add('the suspendable search %s is called by a reading operation directly, not through a function returning Result<bool> ("a record is located")' % ', '.join(sorted(set(self.roles_gap))))
         self._closure_bodies = None
         self.full_cmps = {}
         self.full_ids = {}
+        # the logical record count of the set: its usize field, whatever it is called
+        _adt = prog.adts.get('%s::RecordSet' % fmt)
+        _cnt = [fd['name'] for fd in _adt['variants'][0]['fields'] if fd['ty'].strip() == 'usize'] if _adt else []
+        self.count_field = _cnt[0] if len(_cnt) == 1 else 'npos'
         self.validators = validator_set(prog, fmt) or set()
         self.n_steps = 0
         self.call_ctx = []
         self.ret_trace = {}
         self.track_writes = False
-        self.refills = set(b.path for b in prog.bodies.values() if find_call(b, 'buffer_redux::BufReader::read_into_buf'))
+        import rules_err as _re
+        self.refills = set(b.path for b in _re.refill_family(prog))
         self.eof_tests = {}
 
     # ------------------------------------------------------------------ roles
@@ -127,10 +134,19 @@ class Interp:
         for b in self._reader_bodies():
             for blk in b.blocks:
                 for s in blk.stmts:
-                    if s.k == 'assign' and [p['name'] for p in s.place.proj if p['k'] == 'field'] == ['position', 'byte'] \
-                            and s.rv.k == 'bin' and s.rv.j['op'].startswith('Add'):
+                    direct = s.k == 'assign' and [p['name'] for p in s.place.proj if p['k'] == 'field'] == ['position', 'byte']
+                    # ... or into a temporary that becomes the new position (`self.position = Position::new(line + 4, byte + extent)`)
+                    if s.k == 'assign' and s.rv.k == 'bin' and s.rv.j['op'].startswith('Add') and (direct or s.place.is_local()):
                         ops = s.rv.ops
-                        selfop = [o for o in ops if (not o.is_const) and [p['name'] for p in o.place.proj if p['k'] == 'field'] == ['position', 'byte']]
+
+                        def reads_pos_byte(o):
+                            if o.is_const:
+                                return False
+                            if [p['name'] for p in o.place.proj if p['k'] == 'field'] == ['position', 'byte']:
+                                return True
+                            rs = roots_of(b, o)
+                            return bool(rs) and all(r[0] == 'arg' and r[1] == 1 and tuple(q[1] for q in r[-1]) == ('position', 'byte') for r in rs)
+                        selfop = [o for o in ops if reads_pos_byte(o)]
                         other = [o for o in ops if o not in selfop]
                         if not selfop or not other:
                             continue
@@ -206,6 +222,32 @@ class Interp:
             ret = b.local_tys[0]
             if ret.startswith('std::result::Result<bool, %s' % self.err_adt) and searches(b.path) and not advances(b.path) and suspends(b.path):
                 out.add(b.path)
+        # the roles are only established when every search that can be suspended is reached from the reading operations through
+        # a member of this family (whose `Ok(true)` is what "a record is located" means to the abstraction).  A suspending search
+        # that an entry point calls directly (`self.search_from(Head)? -> Option<part>`) reports its outcome in a form the ghost
+        # does not follow.
+        self.roles_gap = []
+        for entry in ('next', 'read_record_set_exact'):
+            eb = [b for b in self._reader_bodies() if b.key == '%s::%s' % (self.reader, entry)]
+            seen = set()
+            work = [b.path for b in eb]
+            while work:
+                p = work.pop()
+                if p in seen:
+                    continue
+                seen.add(p)
+                for q in cg.get(p, ()):
+                    qb = self.prog.bodies.get(q)
+                    if qb is None or q in out or not qb.key.startswith(self.reader + '::'):
+                        continue
+                    if searches(q) and suspends(q) and not advances(q) and not any(r in out for r in cg.get(q, ())):
+                        # a search that suspends, outside the family and not a mere wrapper of a member of it
+                        direct = any(t.callee and t.callee.target_path().startswith('memchr::') for _, t in qb.calls()) or not any(
+                            searches(r) and suspends(r) for r in cg.get(q, ()))
+                        if direct or True:
+                            self.roles_gap.append(qb.key)
+                            continue
+                    work.append(q)
         return out
 
     def fresh_bool(self, rv):
@@ -358,7 +400,7 @@ class Interp:
         else:
             if path == ():
                 return ('rset',)
-            if path and path[-1] == 'npos':
+            if path and path[-1] == self.count_field:
                 return ('cnt', heap['setc'])
             return ('rsetval', path)
 
@@ -459,7 +501,7 @@ class Interp:
                     w.add(('.'.join(path[1:]), kind))
                     heap['w'] = tuple(sorted(w))
             else:
-                if path and path[-1] == 'npos':
+                if path and path[-1] == self.count_field:
                     if isinstance(val, tuple) and val == ('int', 0):
                         heap['setc'] = 0
                         heap['dirty'] = True
@@ -838,7 +880,13 @@ class Interp:
                 elif path == 'std::option::Option::map':
                     finish(E('Option', 'Some', TOP) if good else a, heap)
                 elif path == 'std::result::Result::map_err':
-                    finish(a if good else E('Result', 'Err', ('err', '?')), heap)
+                    cls = '?'
+                    fa = t.args[1] if len(t.args) > 1 else None
+                    if fa is not None and fa.is_const and 'closure' not in fa.j:
+                        fs = str(fa.fn() or '') + ' ' + str(fa.j.get('s') or '')
+                        if fs.strip().endswith('Error::Io') or (('From' in fs or 'Into' in fs) and 'io::Error' in dest_ty + fs and self.err_adt in dest_ty):
+                            cls = 'io'      # map_err(Error::Io) / map_err(Error::from) on an io::Result: the I/O class of the reader's error
+                    finish(a if good else E('Result', 'Err', ('err', cls)), heap)
                 elif path == 'std::result::Result::ok':
                     finish(E('Option', 'Some', a[3][0] if a[3] else TOP) if good else E('Option', 'None'), heap)
                 elif path == 'std::result::Result::is_ok':
